@@ -6,6 +6,8 @@ package main
 
 import (
 	"fmt"
+	"os"
+	"runtime"
 	"sort"
 	"strings"
 	"sync"
@@ -216,7 +218,7 @@ func (s *coreStack) dumpApp(app *objects.Application, where string) map[string]i
 	return map[string]interface{}{
 		"id": app.ApplicationID, "where": where, "queue": app.GetQueuePath(), "state": app.CurrentState(), "user": app.GetUser().User,
 		"pending": resOrEmpty(app.GetPendingResource()), "allocated": resOrEmpty(app.GetAllocatedResource()), "allocatedPh": resOrEmpty(app.GetPlaceholderResource()),
-		"items": items, "reservations": resv, "phData": phd, "log": log, "phTimer": phT, "stateTimer": stT, "forced": app.IsCreateForced(),
+		"phAsk": resOrEmpty(app.GetPlaceholderAsk()), "items": items, "reservations": resv, "phData": phd, "log": log, "phTimer": phT, "stateTimer": stT, "forced": app.IsCreateForced(),
 	}
 }
 
@@ -416,9 +418,13 @@ func (d *coreDrv) applyWithTap(op map[string]interface{}, tap func([]map[string]
 		c.stat("hang")
 		c.emit(line)
 		c.out.Flush()
+		buf := make([]byte, 1<<20)
+		n := runtime.Stack(buf, true)
+		os.Stderr.Write(buf[:n])
 		panic("core harness: operation did not return within 10s: " + name)
 	}
 	if d.s != nil {
+		d.settle()
 		msgs := d.s.h.take()
 		line["msgs"] = msgs
 		line["st"] = d.s.dump()
@@ -429,9 +435,30 @@ func (d *coreDrv) applyWithTap(op map[string]interface{}, tap func([]map[string]
 	c.emit(line)
 }
 
+// settle waits for the asynchronous terminated-application callback (a goroutine started by the state machine):
+// a Completed / Failed application leaves partition.applications shortly after the transition.
+func (d *coreDrv) settle() {
+	for i := 0; i < 500; i++ {
+		busy := false
+		for _, a := range d.s.part.GetApplications() {
+			if st := a.CurrentState(); st == "Completed" || st == "Failed" {
+				busy = true
+			}
+		}
+		if !busy {
+			return
+		}
+		time.Sleep(time.Millisecond)
+	}
+	d.c.stat("settle-timeout")
+}
+
 func (d *coreDrv) exec(name string, op map[string]interface{}, line map[string]interface{}) {
 	switch name {
 	case "reset":
+		if d.s != nil {
+			d.s.cc.Stop() // background services of the previous history
+		}
 		s, err := newCoreStack(jsonStr(op["config"]))
 		if err != nil {
 			line["error"] = err.Error()
